@@ -9,6 +9,44 @@ use rand::Rng;
 /// assert_eq!(vector.len(), 128);
 /// ```
 pub fn random(size: usize) -> Vec<u8> {
+    #[cfg(rdp_rs_verif)]
+    {
+        if let Some(forced) = verif::next(size) {
+            return forced;
+        }
+    }
     let mut rng = rand::thread_rng();
     (0..size).map(|_| rng.gen()).collect()
+}
+
+/// Verification hook (only with `--cfg rdp_rs_verif`): lets a harness
+/// decide the bytes returned by `random` on the current thread.
+#[cfg(rdp_rs_verif)]
+pub mod verif {
+    use std::cell::RefCell;
+
+    thread_local! {
+        static PATTERN: RefCell<Option<(Vec<u8>, usize)>> = RefCell::new(None);
+    }
+
+    /// `Some(pattern)`: `random` returns the pattern bytes cyclically;
+    /// `None`: back to the real generator
+    pub fn set_pattern(pattern: Option<Vec<u8>>) {
+        PATTERN.with(|p| *p.borrow_mut() = pattern.filter(|x| !x.is_empty()).map(|x| (x, 0)));
+    }
+
+    pub fn next(size: usize) -> Option<Vec<u8>> {
+        PATTERN.with(|p| {
+            if let Some((pattern, pos)) = p.borrow_mut().as_mut() {
+                let mut result = Vec::with_capacity(size);
+                for _ in 0..size {
+                    result.push(pattern[*pos % pattern.len()]);
+                    *pos += 1;
+                }
+                Some(result)
+            } else {
+                None
+            }
+        })
+    }
 }
